@@ -235,7 +235,9 @@ def checkFiles (st : WalSt) (w : Writer) (obs : List String) (expectSynced : Opt
   | some o =>
     if e ≠ o then (st, .error s!"image differs: {firstDiff e o}")
     else match expectSynced, kv obs "synced" with
-      | some b, some s => if (if b then "1" else "0") = s then (st, .ok true) else (st, .error s!"sync point: model={b} observed={s}")
+      -- the observation is the fdatasync the harness SAW (the wal package's own fsync histogram); syncing more often than the model's
+      -- MustSync rule demands is harmless, a missing sync is what the property is about
+      | some b, some s => if b && s = "0" then (st, .error s!"sync point: the model (raft.MustSync / cut) demands an fdatasync before this call returns, none was observed") else (st, .ok true)
       | _, _ => (st, .ok true)
 
 def snapRes (files : List Bytes) (wanted : Option (List (Nat × Nat))) : String :=
